@@ -22,7 +22,7 @@ def adapter(pattern):
 
 
 def write_replay(prop, o, run=True):
-    d = os.path.join(VERIF, 'replays', prop)
+    d = os.path.join(os.environ.get('VERIF_OUT', VERIF), 'replays', prop)
     os.makedirs(d, exist_ok=True)
     nm = re.sub(r'[^A-Za-z0-9_.-]+', '_', o['name'])[:150]
     path = os.path.join(d, nm + '.json')
